@@ -274,6 +274,7 @@ fn cancel_case(idx: Idx, call: &Call, dirty: bool, k: u32) -> CancelResult {
     let mut problems = Vec::new();
     let result: Rc<RefCell<Option<Outcome>>> = Rc::new(RefCell::new(None));
     live.ctl.set_gate(true);
+    live.ctl.set_post_gate(true);
     live.ctl.set_task(0);
     let mut completed_at = None;
     {
@@ -437,6 +438,7 @@ fn race_case(idx: Idx, transition: &Call, ops: &[Call], ch: &mut Chooser) -> Rac
     live.ctl.clear_labels();
     live.ctl.keep_labels(true);
     live.ctl.set_gate(true);
+    live.ctl.set_post_gate(true);
     // journal length / call classification at the moment the transition returned
     let mut t_done: Option<(usize, Vec<&'static str>)> = None;
     let mut steps = 0usize;
@@ -621,6 +623,171 @@ fn race_case(idx: Idx, transition: &Call, ops: &[Call], ch: &mut Chooser) -> Rac
     RaceResult { problems, steps, outcome_key, labels }
 }
 
+
+// ---------------------------------------------------------------------------
+// Part C: a storage fault inside close / flush (every mutation x both answers)
+
+struct FaultResult {
+    problems: Vec<(String, String)>,
+    mutations: u64,
+    state: String,
+}
+
+/// Runs `call` (close / close_collection / flush) on a collection with the
+/// unflushed acknowledged op `dirty_op`, failing its `i`-th backend mutation
+/// with `answer`. Returns None when the call has fewer than i+1 mutations.
+fn fault_case(idx: Idx, call: &Call, dirty_op: &Op, i: u64, answer: vcore::ctlstore::Answer) -> Option<FaultResult> {
+    let mut live = conc::open_live(idx);
+    let mut model = conc::preloaded(idx).model.clone();
+    let out = util::block_on(exec_on(&live.fx.coll, dirty_op)).unwrap();
+    assert!(out.is_ok(), "setup {dirty_op:?} failed: {}", out.short());
+    model.apply(dirty_op, &out);
+    let coll = live.fx.coll.clone();
+    let db = live.fx.db.clone();
+    let next_id = coll.max_document_id() + 1;
+    let base = live.ctl.mutation_attempts();
+    live.ctl.script(base + i, answer);
+    live.ctl.set_task(0);
+    let out = util::block_on(exec_call(&db, &coll, call));
+    let used = live.ctl.mutation_attempts() - base;
+    if used <= i {
+        return None; // the call finished before reaching mutation i
+    }
+    live.ctl.reset_faults();
+    let state = coll.state();
+    let mut problems = Vec::new();
+    let label = format!("{} with mutation #{i} answered {answer:?} (call returned {})", call_kind(call), out.short());
+    match state {
+        CollectionState::Active => {
+            // a failed flush/close that leaves the handle Active must have left memory and storage consistent
+            let bad = util::block_on(vdb::oracle::full_compare(&coll, &model.docs, idx, vdb::ops::probe_bound(&model)));
+            if !bad.is_empty() {
+                problems.push((format!("fault|active-but-diverged|{}", call_kind(call)), format!("{label}: handle Active but {}", bad.join("; "))));
+            }
+        }
+        other => {
+            let l = format!("{other:?}").to_lowercase();
+            retained_battery(&live, &coll, &l, &mut problems);
+        }
+    }
+    let exp = expectation_from(&model, idx, &[], &[], next_id);
+    reopen_and_check(&mut live, idx, &exp, &mut problems, &format!("failed-{}", call_kind(call)));
+    Some(FaultResult { problems, mutations: used, state: format!("{state:?}") })
+}
+
+// ---------------------------------------------------------------------------
+// Part D: poison by cancellation while another call is in flight, then reopen
+
+fn poison_race_case(idx: Idx, victim: &Op, survivor: &Op, ch: &mut Chooser) -> RaceResult {
+    let (mut live, model) = setup(idx, true);
+    let coll = live.fx.coll.clone();
+    let db = live.fx.db.clone();
+    let next_id = coll.max_document_id() + 1;
+    let results: Rc<RefCell<Vec<Option<Outcome>>>> = Rc::new(RefCell::new(vec![None; 2]));
+    let reopened: Rc<RefCell<Option<Result<Arc<Collection>, String>>>> = Rc::new(RefCell::new(None));
+    let mut problems = Vec::new();
+    live.ctl.clear_labels();
+    live.ctl.keep_labels(true);
+    live.ctl.set_gate(true);
+    live.ctl.set_post_gate(true);
+    let mut steps = 0usize;
+    let mut cancelled = false;
+    let mut deadlock = None;
+    {
+        let mut sched = Sched::new();
+        let ctl = live.ctl.clone();
+        sched.on_switch = Some(Box::new(move |t| ctl.set_task(t)));
+        for (i, op) in [victim, survivor].into_iter().enumerate() {
+            let (c2, op2, r2) = (coll.clone(), op.clone(), results.clone());
+            sched.spawn(&format!("{op:?}"), async move {
+                let out = exec_on(&c2, &op2).await.expect("plain op");
+                r2.borrow_mut()[i] = Some(out);
+            });
+        }
+        loop {
+            if steps > 6000 {
+                problems.push(("poison-race|livelock".into(), "no completion within 6000 steps".into()));
+                break;
+            }
+            let (mut opts, mut costs) = sched.options();
+            // extra option: drop the victim's future at its current suspension point
+            let can_cancel = !cancelled && sched.state(0) == TaskState::Suspended;
+            if can_cancel {
+                opts.push(usize::MAX);
+                costs.push(if opts.len() == 1 { 0 } else { 1 });
+            }
+            if opts.is_empty() {
+                if !sched.all_done() {
+                    deadlock = Some((0..sched.len()).filter(|t| sched.state(*t) == TaskState::Suspended).map(|t| sched.name(t).to_string()).collect::<Vec<_>>());
+                }
+                break;
+            }
+            let pick = if opts.len() == 1 { 0 } else { ch.choose(&costs) };
+            if opts[pick] == usize::MAX {
+                sched.cancel(0);
+                cancelled = true;
+                // the caller notices the poisoned handle and reopens through the same database
+                let (d2, r2) = (db.clone(), reopened.clone());
+                sched.spawn("reopen", async move {
+                    let r = fixture::open_coll_with(&d2, idx, idx).await.map_err(|e| format!("{e:?}"));
+                    *r2.borrow_mut() = Some(r);
+                });
+            } else {
+                sched.step(opts[pick]);
+            }
+            steps += 1;
+        }
+    }
+    live.ctl.set_gate(false);
+    live.ctl.keep_labels(false);
+    live.ctl.set_task(99);
+    let labels = conc::canon_labels(&live.ctl.labels());
+    let outcomes = results.borrow().clone();
+    let outcome_key = util::fnv64(format!("{:?}|{cancelled}", outcomes.iter().map(|o| o.as_ref().map(|x| x.short())).collect::<Vec<_>>()).as_bytes());
+    if let Some(who) = deadlock {
+        problems.push(("poison-race|deadlock".into(), format!("deadlock: {who:?} blocked forever")));
+        return RaceResult { problems, steps, outcome_key, labels };
+    }
+    if !cancelled {
+        // the victim completed before any cancellation point was chosen: nothing to check here
+        return RaceResult { problems, steps, outcome_key, labels };
+    }
+    let victim_call = Call::Op(victim.clone());
+    let survivor_call = Call::Op(survivor.clone());
+    let acked: Vec<(&Call, &Outcome)> = outcomes[1].as_ref().filter(|o| o.is_ok()).map(|o| vec![(&survivor_call, o)]).unwrap_or_default();
+    // a survivor that reported an error other than a lifecycle rejection has an unknown outcome
+    let mut uncertain: Vec<&Call> = vec![&victim_call];
+    if let Some(Outcome::Err(c)) = &outcomes[1]
+        && !matches!(c, ErrClass::State(_))
+    {
+        uncertain.push(&survivor_call);
+    }
+    let exp = expectation_from(&model, idx, &uncertain, &acked, next_id);
+    let r = reopened.borrow_mut().take();
+    match r {
+        Some(Ok(c2)) => {
+            if c2.state() != CollectionState::Active {
+                problems.push(("poison-race|reopened-not-active".into(), format!("handle returned by the reopen is {:?}", c2.state())));
+            } else {
+                let fx = Fixture { store: live.fx.store.clone(), db: live.fx.db.clone(), coll: c2, idx };
+                let (ps, _) = util::block_on(crash::check_state(&fx, &exp));
+                for (sig, msg) in ps {
+                    problems.push((format!("poison-race|reopened-state|{sig}"), format!("handle reopened after the poisoning cancellation: {msg}")));
+                }
+            }
+        }
+        Some(Err(e)) => problems.push(("poison-race|reopen-failed".into(), format!("reopen after the poisoning cancellation failed: {e}"))),
+        None => problems.push(("poison-race|reopen-never-returned".into(), "reopen never returned".into())),
+    }
+    // the poisoned handle itself stays retired
+    if coll.state() != CollectionState::Active {
+        let l = format!("{:?}", coll.state()).to_lowercase();
+        retained_battery(&live, &coll, &l, &mut problems);
+    }
+    let _ = &mut live;
+    RaceResult { problems, steps, outcome_key, labels }
+}
+
 fn main() {
     let mut run = Run::from_args("C06", "step", "model_checking");
     let idx = Idx::ALL;
@@ -632,6 +799,23 @@ fn main() {
         if r["kind"] == "cancel" {
             let call: Call = serde_json::from_value(r["call"].clone()).unwrap();
             let res = cancel_case(idx, &call, r["dirty"].as_bool().unwrap(), r["k"].as_u64().unwrap() as u32);
+            problems = res.problems;
+        } else if r["kind"] == "fault" {
+            let call: Call = serde_json::from_value(r["call"].clone()).unwrap();
+            let dirty: Op = serde_json::from_value(r["dirty_op"].clone()).unwrap();
+            let ans = if r["answer"] == "ErrAfter" { vcore::ctlstore::Answer::ErrAfter } else { vcore::ctlstore::Answer::ErrBefore };
+            if let Some(res) = fault_case(idx, &call, &dirty, r["i"].as_u64().unwrap(), ans) {
+                problems = res.problems;
+            }
+        } else if r["kind"] == "poison-race" {
+            let victim: Op = serde_json::from_value(r["victim"].clone()).unwrap();
+            let survivor: Op = serde_json::from_value(r["survivor"].clone()).unwrap();
+            let choices: Vec<u32> = serde_json::from_value(r["choices"].clone()).unwrap();
+            let mut ch = Chooser::new(choices);
+            let res = poison_race_case(idx, &victim, &survivor, &mut ch);
+            if let Some(d) = ch.diverged {
+                vcore::report::machinery(&format!("replay diverged: {d}"));
+            }
             problems = res.problems;
         } else {
             let t: Call = serde_json::from_value(r["transition"].clone()).unwrap();
@@ -715,11 +899,138 @@ fn main() {
         }
     }
 
+    // ---- Part C: faults inside close / flush
+    {
+        let calls = [Call::CollClose, Call::DbCloseCollection, Call::Op(Op::Flush)];
+        let dirties = [Op::Update(2, 3), Op::Remove(2), Op::Add(3), Op::Update(1, 8)];
+        let mut items = Vec::new();
+        for c in &calls {
+            for d in &dirties {
+                for ans in [vcore::ctlstore::Answer::ErrBefore, vcore::ctlstore::Answer::ErrAfter] {
+                    items.push((c.clone(), d.clone(), ans));
+                }
+            }
+        }
+        let results = util::par_map(items, threads, |(c, d, ans)| {
+            let mut out = Vec::new();
+            let mut i = 0u64;
+            while let Some(r) = fault_case(idx, &c, &d, i, ans) {
+                out.push((i, r));
+                i += 1;
+                if i > 200 {
+                    break;
+                }
+            }
+            (c, d, ans, out)
+        });
+        for (c, d, ans, out) in results {
+            run.add("fault_points", out.len() as u64);
+            run.add("executions", out.len() as u64);
+            run.add("evaluations", out.len() as u64);
+            run.add("transitions", out.iter().map(|(_, r)| r.mutations).sum());
+            run.distinct(util::fnv64(format!("fault {c:?} {d:?} {ans:?}").as_bytes()));
+            if out.len() > 3 && matches!(ans, vcore::ctlstore::Answer::ErrAfter) {
+                run.sample(json!({"part": "fault", "call": format!("{c:?}"), "unflushed_op": format!("{d:?}"), "answer": format!("{ans:?}"),
+                    "handle_state_by_failed_mutation": out.iter().map(|(i, r)| format!("{i}:{}", r.state)).collect::<Vec<_>>()}));
+            }
+            for (i, r) in out {
+                cancel_states.insert(format!("fault|{}|{}", call_kind(&c), r.state));
+                for (sig, msg) in r.problems {
+                    run.violation(Violation {
+                        signature: format!("C06|{sig}"),
+                        summary: msg,
+                        replay: json!({"kind": "fault", "call": c, "dirty_op": d, "i": i, "answer": format!("{ans:?}")}),
+                    });
+                }
+            }
+        }
+    }
+
+    // ---- Part D: poison by cancellation with a survivor in flight, then reopen
+    let mut outcome_kinds = std::collections::BTreeSet::new();
+    {
+        let pairs = vec![
+            (Op::Update(1, 0), Op::Update(2, 8)),
+            (Op::Update(1, 0), Op::Remove(2)),
+            (Op::Remove(1), Op::Update(2, 8)),
+            (Op::Add(3), Op::Update(2, 8)),
+            (Op::Update(1, 8), Op::Add(3)),
+        ];
+        let bound = run.tier.pick(2, 3);
+        struct PrOut {
+            v: Op,
+            s: Op,
+            machinery: Option<String>,
+            found: Vec<(Vec<u32>, Vec<(String, String)>)>,
+            execs: u64,
+            steps: u64,
+            keys: Vec<u64>,
+            capped: bool,
+        }
+        let outs = util::par_map(pairs, threads, |(v, sv)| {
+            let mut po = PrOut { v: v.clone(), s: sv.clone(), machinery: None, found: vec![], execs: 0, steps: 0, keys: vec![], capped: false };
+            let a = poison_race_case(idx, &v, &sv, &mut Chooser::new(vec![]));
+            let b = poison_race_case(idx, &v, &sv, &mut Chooser::new(vec![]));
+            if a.labels != b.labels || a.outcome_key != b.outcome_key {
+                po.machinery = Some("nondeterministic replay".into());
+                return po;
+            }
+            let stats = choice::explore(
+                bound,
+                1,
+                deadline,
+                u64::MAX,
+                |ch| {
+                    let r = poison_race_case(idx, &v, &sv, ch);
+                    (r, ch.diverged.clone())
+                },
+                |choices, (r, div)| {
+                    po.execs += 1;
+                    po.steps += r.steps as u64;
+                    po.keys.push(r.outcome_key);
+                    if let Some(d) = div {
+                        po.machinery = Some(d);
+                        return false;
+                    }
+                    if !r.problems.is_empty() {
+                        po.found.push((choices, r.problems));
+                        return false;
+                    }
+                    true
+                },
+            );
+            po.capped = stats.capped;
+            po
+        });
+        for po in outs {
+            if let Some(m) = po.machinery {
+                vcore::report::machinery(&format!("poison race {:?} vs {:?}: {m}", po.v, po.s));
+            }
+            run.add("executions", po.execs);
+            run.add("evaluations", po.execs);
+            run.add("transitions", po.steps);
+            run.add("poison_race_executions", po.execs);
+            run.distinct(util::fnv64(format!("poison {:?} {:?}", po.v, po.s).as_bytes()));
+            outcome_kinds.extend(po.keys);
+            for (choices, ps) in po.found {
+                for (sig, msg) in ps {
+                    run.violation(Violation {
+                        signature: format!("C06|{sig}"),
+                        summary: format!("cancel {:?} while {:?} is in flight, then reopen; schedule {choices:?}: {msg}", po.v, po.s),
+                        replay: json!({"kind": "poison-race", "victim": po.v, "survivor": po.s, "choices": choices}),
+                    });
+                }
+            }
+            if po.capped {
+                run.cap_hit("time budget inside the poison-race part");
+            }
+        }
+    }
+
     // ---- Part B
     let transitions = vec![Call::CollClose, Call::DbCloseCollection, Call::DbDeleteCollection, Call::CollReadOnly, Call::DbReadOnly, Call::DbClose];
     let op_alpha = vec![Call::Op(Op::Add(3)), Call::Op(Op::Update(1, 0)), Call::Op(Op::Flush), Call::Op(Op::Remove(2)), Call::Op(Op::SaveExt(1))];
     let plan: Vec<(usize, u32)> = run.tier.pick(vec![(1, 2), (2, 1)], vec![(1, 3), (2, 2), (3, 1), (2, 3)]);
-    let mut outcome_kinds = std::collections::BTreeSet::new();
     let mut completed = Vec::new();
     'plan: for (k, bound) in plan {
         let mut sets: Vec<Vec<Call>> = Vec::new();
@@ -835,7 +1146,7 @@ fn main() {
     run.add("states", (outcome_kinds.len() + cancel_states.len()) as u64);
     run.set("completed", json!(completed));
     run.set("cancel_handle_states", json!(cancel_states));
-    run.rule("cancel: each of 14 mutating APIs (clean and dirty collection) dropped after k polls for every k up to completion; race: each of 6 lifecycle transitions x every set of k operations from a 5-operation alphabet (always a dirty collection so flush/close write), every interleaving with <= B preemptions; oracle on the attributed mutation journal + retained-handle battery (10 mutating APIs, before and after set_read_only(false)) + reopen through the same database handle with the C01/C02 oracles; states = distinct (outcome vector, admission classification) kinds");
+    run.rule("fault: close / close_collection / flush with each of 4 unflushed acknowledged ops, every backend mutation of the call answered ErrBefore and ErrAfter: a non-Active handle rejects everything and writes nothing, reopening through the same database satisfies the C01/C02 oracles; poison-race: a call cancelled at any suspension point (a deviation) while another call is in flight, the caller then reopens through the same database concurrently with the survivor, all schedules within the bound: the reopened handle satisfies the C01/C02 oracles with the survivor acknowledged and the victim all-or-nothing; cancel: each of 14 mutating APIs (clean and dirty collection) dropped after k polls for every k up to completion; race: each of 6 lifecycle transitions x every set of k operations from a 5-operation alphabet (always a dirty collection so flush/close write), every interleaving with <= B preemptions; oracle on the attributed mutation journal + retained-handle battery (10 mutating APIs, before and after set_read_only(false)) + reopen through the same database handle with the C01/C02 oracles; states = distinct (outcome vector, admission classification) kinds");
     run.assume("await granularity (one scheduling point per backend call and per async-lock wait); operations in one race set touch different documents so that a task blocked before its first backend call is waiting for admission (operation gate), not for a document lock");
     run.finish();
 }
